@@ -594,6 +594,10 @@ func valuePath(v ssa.Value) string {
 			return "nil"
 		}
 		return x.Value.String()
+	case *ssa.Phi:
+		if x.Comment != "" {
+			return "phi:" + x.Comment
+		}
 	case *ssa.BinOp:
 		return valuePath(x.X) + x.Op.String() + valuePath(x.Y)
 	case *ssa.Index:
